@@ -474,6 +474,167 @@ def run_scripts(scripts, workers=12):
     return scens
 
 
+# --------------------------------------------------------------------------
+# suite "sched": statement-level interleavings of one APPEND with complete
+# commands of other writers on the same mailbox (gate ops of harness/drv/c03.go)
+
+SCHED_POINTS = ["U", "I", "R", "Q"]     # the tree's APPEND: allocate uid / insert link / read validity / read uid
+OTHER_KINDS = ["deliver", "append", "uidcopy", "nonjunk"]
+
+
+def sched_msg(i):
+    return "From: a@example.com\r\nTo: u@example.com\r\nSubject: s%d\r\nMessage-ID: <m%d@verif>\r\n\r\nbody %d\r\n" % (i, i, i)
+
+
+def sched_append_steps(tag, folder, i):
+    m = sched_msg(i)
+    return [{"data": "%s APPEND %s {%d}\r\n" % (tag, folder, len(m)), "until": "cont:" + tag},
+            {"data": m + "\r\n", "until": "tag:" + tag}]
+
+
+def sched_other(kind, j):
+    """(thread spec, Coq model op, number of messages it adds to INBOX). c2 has Trash (row 4) selected;
+    Trash holds UIDs 1..4."""
+    if kind == "deliver":
+        return ({"conn": "l0", "steps": [{"data": "MAIL FROM:<a@example.com>\r\n", "until": "lmtp:1"},
+                                         {"data": "RCPT TO:<%s>\r\n" % USER, "until": "lmtp:1"},
+                                         {"data": "DATA\r\n", "until": "lmtp:1"},
+                                         {"data": sched_msg(100 + j) + ".\r\n", "until": "lmtp:1"}]},
+                "(ODeliver (S_ \"INBOX\") 0)")
+    if kind == "append":
+        return ({"conn": "c2", "steps": sched_append_steps("o%d" % j, "INBOX", 200 + j)}, "(OAppend (S_ \"INBOX\") [])")
+    if kind == "uidcopy":
+        return ({"conn": "c2", "steps": [{"data": "o%d UID COPY %d INBOX\r\n" % (j, 1 + j % 2), "until": "tag:o%d" % j}]},
+                "(OUidCopy 4 [(UOne %d)] (S_ \"INBOX\"))" % (1 + j % 2))
+    if kind == "nonjunk":
+        return ({"conn": "c2", "steps": [{"data": "o%d UID STORE %d +FLAGS (NonJunk)\r\n" % (j, 3 + j % 2), "until": "tag:o%d" % j}]},
+                "(OUidStore 4 [(UOne %d)] SAdd [(S_ \"NonJunk\")])" % (3 + j % 2))
+    raise ValueError(kind)
+
+
+def sched_ops(plan):
+    """plan: list of (hold index, [other kinds]) for ONE held APPEND to INBOX."""
+    ops = [{"op": "open", "conn": "c1"},
+           {"op": "send", "conn": "c1", "data": "i1 LOGIN %s pw\r\n" % USER, "until": "tag:i1"},
+           {"op": "open", "conn": "c2"},
+           {"op": "send", "conn": "c2", "data": "i2 LOGIN %s pw\r\n" % USER, "until": "tag:i2"},
+           {"op": "lmtp_open", "conn": "l0"},
+           {"op": "send", "conn": "l0", "data": "LHLO x\r\n", "until": "lmtp:1"}]
+    for n in range(4):
+        for st in sched_append_steps("p%d" % n, "Trash", 10 + n):
+            ops.append(dict(st, op="send", conn="c2"))
+    for st in sched_append_steps("p9", "INBOX", 19):
+        ops.append(dict(st, op="send", conn="c1"))
+    ops += [{"op": "send", "conn": "c2", "data": "p10 SELECT Trash\r\n", "until": "tag:p10"},
+            {"op": "dump"},
+            {"op": "c03_gate_install", "user": USER}]
+    others, holds, envs = [], [], {k: [] for k in range(len(SCHED_POINTS))}
+    j = 0
+    for (k, kinds) in plan:
+        run = []
+        for kind in kinds:
+            th, mop = sched_other(kind, j)
+            others.append(th)
+            envs[k].append(mop)
+            run.append(j)
+            j += 1
+        holds.append({"at": k, "run": run})
+    ops.append({"op": "c03_hold", "holder": {"conn": "c1", "steps": sched_append_steps("h1", "INBOX", 1)},
+                "others": others, "holds": holds, "timeout_ms": 10000})
+    ops += [{"op": "send", "conn": "c1", "data": "f1 SELECT INBOX\r\n", "until": "tag:f1"},
+            {"op": "send", "conn": "c1", "data": "f2 UID FETCH 1:* (UID BODY.PEEK[HEADER.FIELDS (Message-ID)])\r\n", "until": "tag:f2"},
+            {"op": "dump"}]
+    return ops, envs
+
+
+def run_sched(chk, plans, stats):
+    """Run the plans, check APPENDUID against UID FETCH and the store, and tie
+    the statement-level model (Model/AppendSched.v) to the outcome."""
+    built = [sched_ops(p) for p in plans]
+    res = C.run_many([b[0] for b in built], workers=12, timeout=300)
+    terms = []
+    ok_idx = []
+    for n, (plan, (ops, envs), r) in enumerate(zip(plans, built, res)):
+        payload = {"suite": "sched", "plan": plan, "points": SCHED_POINTS}
+        if r.get("crashed") or len(r.get("obs", [])) != len(ops):
+            r = C.run_ops(ops, timeout=300)          # one solo retry
+        if r.get("crashed") or len(r.get("obs", [])) != len(ops):
+            chk.broken_obligation("sched scenario could not be run: %s" % str(r.get("stderr", ""))[-300:], payload)
+            continue
+        obs = r["obs"]
+        hold = obs[-4]
+        if hold.get("error") or any(o.get("how") in ("timeout", "eof", "write-error") for o in obs if isinstance(o, dict)):
+            r2 = C.run_ops(ops, timeout=300)
+            if not r2.get("crashed") and len(r2.get("obs", [])) == len(ops):
+                obs = r2["obs"]
+                hold = obs[-4]
+        if hold.get("error"):
+            chk.broken_obligation("sched scenario did not complete: %s" % hold.get("error"), payload)
+            continue
+        stats["sched"] = stats.get("sched", 0) + 1
+        pts = hold.get("points") or []
+        if pts != SCHED_POINTS:
+            stats.setdefault("sched_points", set()).add(" ".join(pts))
+        reached = set(hold.get("reached") or [])
+        rest = tagged(hold["holder"][-1]["recv"], "h1")
+        m = re.search(r"\[APPENDUID (\d+) (\d+)\]", rest)
+        dump0, dump = user_store(obs[-6]), user_store(obs[-1])
+        inbox = [x for x in (dump.get("mailboxes") or []) if x[2] == "INBOX"][0]
+        pairs = re.findall(r"FETCH \(UID (\d+) BODY\[HEADER\.FIELDS \(MESSAGE-ID\)\] \{\d+\}\r\nMessage-ID: <(m\d+)@verif>", obs[-2]["recv"], re.I)
+        fetched = dict((mid, int(u)) for u, mid in pairs)
+        sched_txt = "; ".join("hold APPEND before statement %d (%s): run %s" % (k, SCHED_POINTS[k] if k < len(SCHED_POINTS) else "?", "+".join(kinds)) for k, kinds in plan)
+        if reply_class(rest) == "OK" and m:
+            v, u = int(m.group(1)), int(m.group(2))
+            actual = fetched.get("m1")
+            if actual != u or v != inbox[3]:
+                chk.violation("APPENDUID announces (%d, %d) but the appended message <m1@verif> is found under UID %s of INBOX (UIDVALIDITY %d); UID %d is %s  [schedule: %s; statements reached: %s]"
+                              % (v, u, actual, inbox[3], u, [k for k, x in fetched.items() if x == u] or "no message", sched_txt, pts), payload)
+                stats["real"] = stats.get("real", 0) + 1
+            rtxt = "(RAppendUid %s %s)" % (C.coq_z(v), C.coq_z(u))
+        else:
+            rtxt = {"OK": "ROk", "NO": "RNo", "BAD": "RBad"}.get(reply_class(rest), "RBad")
+        # uniqueness / UIDNEXT on the result
+        links = dump.get("links") or []
+        seen = set()
+        for l in links:
+            if (l[2], l[3]) in seen:
+                chk.violation("two rows with UID %d in mailbox row %d after schedule %s" % (l[3], l[2], sched_txt), payload)
+            seen.add((l[2], l[3]))
+        for mb in (dump.get("mailboxes") or []):
+            top = max([l[3] for l in links if l[2] == mb[0]], default=0)
+            if mb[4] <= top:
+                chk.violation("%s advertises UIDNEXT %d with UID %d present after schedule %s" % (mb[2], mb[4], top, sched_txt), payload)
+        before = max([l[3] for l in (dump0.get("links") or []) if l[2] == inbox[0]], default=0)
+        added = sorted(l[3] for l in links if l[2] == inbox[0] and l[3] > before)
+        if len(set(added)) != len(added) or sorted(int(u) for u, _ in pairs) != sorted(l[3] for l in links if l[2] == inbox[0]):
+            chk.violation("UID FETCH and the store disagree about INBOX after schedule %s" % sched_txt, payload)
+        # model term: only the hold points that were really reached take part in the schedule
+        mbs = dump0.get("mailboxes") or []
+        e = [C.coq_list(envs[k]) if k in reached else "[]" for k in range(4)]
+        late = [x for k in range(4) if k not in reached for x in envs[k]]
+        mv = C.coq_list(["(%d, %s, %s, %d)" % (x[0], C.coq_str(x[2]), C.coq_z(x[3]), x[4]) for x in (dump.get("mailboxes") or [])])
+        lv = C.coq_list(["(%d, %d, %d, %d, %s)" % (l[0], l[1], l[2], l[3], coq_flags(C.unlatin(l[4]).split())) for l in links])
+        terms.append("((init5 %s), %s, %s, %s, %s, %s, (%s, %s, %s))" % (" ".join(C.coq_z(x[3]) for x in mbs), e[0], e[1], e[2], e[3], C.coq_list(late), rtxt, mv, lv))
+        ok_idx.append(n)
+    if not terms:
+        return
+    body = C.COQ_CASE_HEADER + "From Raven Require Import Model.Store Model.Ops Spec.UidSpec Model.UidView Model.AppendSched.\nLocal Open Scope Z_scope.\n"
+    body += "Definition cases : list (store * list op * list op * list op * list op * list op * obs_step) := [\n%s].\n" % ";\n".join(terms)
+    body += "Definition res := Eval vm_compute in map eval_sched cases.\nPrint res.\n"
+    rc, log = C.coq_eval_cases(PID + "_sched", body)
+    txt = C.parse_coq_list_out(log, "res") if rc == 0 else None
+    if txt is None:
+        chk.broken_obligation("in-Coq evaluation of the C03 sched cases failed:\n" + log[-2000:])
+        return
+    vals = re.findall(r"true|false", txt)
+    for n, val in zip(ok_idx, vals):
+        if val != "true":
+            stats["diff"] += 1
+            if not stats.get("real"):
+                chk.broken_obligation("correspondence sched no longer checks: the statement-level model of APPEND (Model/AppendSched.v) and the implementation differ under schedule %r" % (plans[n],),
+                                      {"suite": "sched", "plan": plans[n], "points": SCHED_POINTS})
+
+
 def rename_inbox_family():
     """RENAME INBOX onto an EXISTING name, in every relation between the two
     mailboxes that matters for UIDs: target never used / used and emptied
@@ -666,6 +827,14 @@ def run(chk):
     for (fname, d), sc, ev in zip(corp, scens, evs):
         judge(chk, sc, ev, "corpus/" + fname, stats)
     n_eval = sum(len(sc.model_ops) for sc in scens)
+    # ---- 1b. statement-level schedules of APPEND against other writers
+    plans = [[(k, [kind])] for k in range(len(SCHED_POINTS)) for kind in OTHER_KINDS]
+    if not quick:
+        for _ in range(80):
+            ks = sorted(chk.rng.sample(range(len(SCHED_POINTS)), chk.rng.randint(1, 3)))
+            plans.append([(k, [chk.rng.choice(OTHER_KINDS) for _ in range(chk.rng.randint(1, 2))]) for k in ks])
+    plans = [[(k, list(kinds)) for k, kinds in p] for p in plans]
+    run_sched(chk, plans, stats)
     # ---- 2. random histories
     n_rand, n_clean, length = (40, 24, 22) if quick else (700, 300, 40)
     fam = rename_inbox_family()
@@ -712,6 +881,10 @@ def run(chk):
     chk.cov["disagreements_checked"] = stats["diff"]
     chk.cov["ops_by_kind"] = kinds
     chk.cov["plain_copy_reachable"] = copy_ok
+    chk.cov["append_schedules_run"] = stats.get("sched", 0)
+    chk.cov["append_statement_points"] = SCHED_POINTS
+    if stats.get("sched_points"):
+        chk.notes.append("APPEND reached its gate points in an order other than %s: %s" % (SCHED_POINTS, sorted(stats["sched_points"])))
     chk.cov["rename_inbox_onto_existing_histories"] = len(fam) if not quick else 10
     chk.cov["clean_histories"] = stats["clean"]
     chk.cov["clean_histories_spec_holds_on_impl"] = stats["clean_ok"]
@@ -725,6 +898,15 @@ def run(chk):
 
 def replay(path):
     d = json.load(open(path))
+    if d.get("suite") == "sched":
+        chk = C.Check(PID, "quick", 1)
+        C.pregen_all()
+        C.coq_make()
+        stats = {"diff": 0}
+        run_sched(chk, [[(k, list(kinds)) for k, kinds in d["plan"]]], stats)
+        for path, what, nofail in chk.violations:
+            print("VIOLATION:", what)
+        return 1 if chk.violations else 0
     script = d.get("script")
     if not script:
         print(json.dumps(d, indent=1))
